@@ -193,6 +193,20 @@ def run(ctx):
             ctx["report"].violation(dict(kind="lazy-vs-eager-next-to-a-float", op=(a.split(" ") + ["whole-number position"] * 2)[1]),
                                     "C05 fails on the implementation: %s gives %s but the eager %s gives %s" % (a, ga, b, gb),
                                     dict(text=a, eager_text=b, impl=ga, expected=gb))
+    # a lazy value next to a quantity, inside nested arrays, under aggregates, used twice: as its eager value
+    C.seam_check(ctx["report"], ctx["rundir"], "C05",
+                 texts=["3!", "C(5,2)", "5!/3!", "(10!/4!)/(7!/2!)", "0!", "C(3,5)", "5!/7!", "3!*3! - 3!", "4!/(2!*2!) + 4!/(2!*2!*2!)", "5!/(0*3!)",
+                        "8!*8!/8!", "C(4,2)*C(4,2) - C(4,2)", "(5!*5!)/(5!)", "3! + 4! + 3!*4!"],
+                 wrappers=C.SEAM_WRAPPERS + [C.SEAM_CONDITION, ("{{%s, 4}, {1}}", lambda v: "A:[A:[%s;I:4];A:[I:1]]" % v),
+                                             ("zz = {%s, 5}; {zz, zz}", lambda v: "A:[A:[%s;I:5];A:[%s;I:5]]" % (v, v)),
+                                             ("zz = %s; zy = zz*zz; zy - zz*zz + zz", lambda v: v)],
+                 templates=[("%s! / 3!", ["3", "4", "5"]), ("C(6, %s)", ["0", "2", "7"]), ("%s! * %s! - %s!".replace("%s", "%s", 1).replace("%s!", "ZZ!", 2).replace("ZZ", "3"), ["3", "4"]),
+                            ("{C(zq2, %s) : zq2 in 0..3}", ["0", "1", "2"])],
+                 pairs=[("4!/(2 s)", "(4!+0)/(2 s)"), ("4!*(2 s)", "(4!+0)*(2 s)"), ("(48 s)/4!", "(48 s)/(4!+0)"), ("C(4,2)/(4 m^2)", "(C(4,2)+0)/(4 m^2)"),
+                        ("(2 s)*4!", "(2 s)*(4!+0)"), ("3!*3! - 3!", "30"), ("a = 5!; b = a*a; b - a", "14280"), ("8!*8! / 8! - 8!", "0"),
+                        ("x = 4!; d = 2 s; x/d", "(4!+0)/(2 s)"), ("max({3!, 4!})", "24"), ("sum({3!, 4!, 1/2})", "30 + 1/2"), ("prod({3!, 0, 4!})", "0"),
+                        ("{{C(n,k) : k in 0..n} : n in 0..3}", "{{1}, {1, 1}, {1, 2, 1}, {1, 3, 3, 1}}"), ("a = C(10,3); x = 7*a; y = 8*a; x < y", "1"),
+                        ("a = C(10,3); x = 7*a; y = 8*a; x > y", "0"), ("a = C(10,3); {7*a == 840, 7*a != 840}", "{1, 0}")])
     rep, tier, seed = ctx["report"], ctx["tier"], ctx["seed"]
     rng = random.Random(seed * 104729 + 5)
     pairs, small = exhaustive()
